@@ -18,13 +18,14 @@ func ParseFromSpec(s string) (*FromSpec, error) {
 		addrSpec: nil,
 		params:   make([]KeyValue, 0)}
 
-	laquot_pos := strings.Index(s, "<")
+	laquot_pos := indexOfLAQuot(s)
 	raquot_pos := -1
 	if laquot_pos != -1 {
-		raquot_pos = strings.Index(s, ">")
-		if raquot_pos == -1 || raquot_pos < laquot_pos {
+		raquot_pos = strings.Index(s[laquot_pos:], ">")
+		if raquot_pos == -1 {
 			return nil, fmt.Errorf("malformatted header From: %s", s)
 		}
+		raquot_pos += laquot_pos
 	}
 
 	params := ""
